@@ -858,3 +858,94 @@ Proof.
   - apply layer_safeb_spec, H. by apply elem_of_list_In.
   - apply layer_safeb_spec, H. by apply elem_of_list_In.
 Qed.
+
+(** * C08: in place, for any store history *)
+(** Whatever happened to the stores before (entries accessed, inserted, removed, earlier saves
+    refused or successful): if a cell of a store rooted at the target is not loaded yet, or holds
+    what the file system holds, then a successful save leaves that file with that content.  Store
+    keys are unique (a map). *)
+Lemma force_cell_In png dir m root cells k cl :
+  (k, cl) ∈ cells → force_cell png dir m root (k, cl) ∈ map (force_cell png dir m root) cells.
+Proof. intros H. apply elem_of_list_fmap. eauto. Qed.
+Lemma forced_key_unique png dir m root cells k c c' :
+  NoDup cells.*1 → (k, c) ∈ map (force_cell png dir m root) cells →
+  (k, c') ∈ map (force_cell png dir m root) cells → c = c'.
+Proof.
+  intros Hnd (kc1 & E1 & H1)%elem_of_list_fmap (kc2 & E2 & H2)%elem_of_list_fmap.
+  assert (kc1.1 = kc2.1) as Hk.
+  { pose proof (force_cell_key png dir m root kc1) as K1. pose proof (force_cell_key png dir m root kc2) as K2.
+    rewrite <- E1 in K1. rewrite <- E2 in K2. cbn in K1, K2. congruence. }
+  assert (kc1 = kc2) as ->; [|congruence].
+  clear -Hnd H1 H2 Hk. induction cells as [|x l IH]; [by apply elem_of_nil in H1|].
+  rewrite fmap_cons in Hnd. apply NoDup_cons in Hnd as [Hx Hl].
+  apply elem_of_cons in H1 as [->|H1]; apply elem_of_cons in H2 as [->|H2]; try done.
+  - exfalso. apply Hx. rewrite Hk. apply elem_of_list_fmap. eauto.
+  - exfalso. apply Hx. rewrite <- Hk. apply elem_of_list_fmap. eauto.
+  - by apply IH.
+Qed.
+
+Lemma in_place_tracked f t m m' (image : bool) k cl c :
+  let s := if image then fa_images f else fa_data f in
+  let dir := if image then IMAGES_DIR else DATA_DIR in
+  st_root s = t → NoDup (st_cells s).*1 → (k, cl) ∈ st_cells s →
+  (cl = NotLoaded ∨ cl = Loaded c) → m !! (t ++ dir :: k) = Some (File c) →
+  save f t m = (Saved, m') → m' !! (t ++ dir :: k) = Some (File c).
+Proof.
+  intros s dir Hroot Hnd Hin Hcl Hm. rewrite save_unfold.
+  destruct (refusal_kind f); [discriminate|].
+  destruct (force_stores m f) as [f'|] eqn:F; [|discriminate].
+  apply force_stores_Some in F as (-> & Hokd & Hoki).
+  set (d := force_store false DATA_DIR m (fa_data f)) in *.
+  set (i := force_store true IMAGES_DIR m (fa_images f)) in *.
+  intros Hrun.
+  change ((Cleanup, wipe_act t) :: (CreateUfoDir, create_dir t) :: write_prog t (set_stores f d i))
+    with ([(Cleanup, wipe_act t); (CreateUfoDir, create_dir t)] ++ write_prog t (set_stores f d i)) in Hrun.
+  rewrite write_prog_split, !app_assoc in Hrun.
+  apply run_prog_app_saved in Hrun as (m2 & Hrun & Himg).
+  apply run_prog_app_saved in Hrun as (m1 & _ & Hdat).
+  cbn [step_prog] in Hdat, Himg.
+  change (fa_data (set_stores f d i)) with d in Hdat.
+  change (fa_images (set_stores f d i)) with i in Himg.
+  (* the forced cell of [k] is loaded with [c] *)
+  assert (Hforced : ∀ png dirn (st : store), st_root st = t → (k, cl) ∈ st_cells st →
+            store_ok (force_store png dirn m st) = true → m !! (t ++ dirn :: k) = Some (File c) →
+            (k, Loaded c) ∈ st_cells (force_store png dirn m st)).
+  { intros png dirn st Hr Hi Hok Hmm. unfold force_store. cbn [st_cells]. rewrite Hr.
+    pose proof (force_cell_In png dirn m t _ _ _ Hi) as Hfi.
+    destruct Hcl as [->| ->].
+    - unfold store_ok, force_store in Hok. cbn [st_cells] in Hok. rewrite Hr in Hok.
+      rewrite forallb_forall in Hok. pose proof (Hok _ (proj1 (elem_of_list_In _ _) Hfi)) as Hc.
+      destruct (force_cell_loaded png dirn m t k _ eq_refl Hc) as (c0 & Heq & Hm0).
+      rewrite Hmm in Hm0. injection Hm0 as <-. by rewrite <- Heq.
+    - exact Hfi. }
+  destruct image; subst s dir.
+  - (* an image *)
+    pose proof (Hforced true IMAGES_DIR (fa_images f) Hroot Hin Hoki Hm) as Hi.
+    fold i in Hi. destruct (st_cells i) as [|kc cells] eqn:Ei; [by apply elem_of_nil in Hi|].
+    eapply (run_prog_written _ _ _ _ _ ImageErr); [| |exact Himg].
+    + constructor; [apply compat_create_dir|].
+      apply image_prog_compat. intros k' c' Hin' Heq. apply app_inv_head in Heq. injection Heq as ->.
+      rewrite <- Ei in Hin', Hi. unfold i, force_store in Hin', Hi. cbn [st_cells] in Hin', Hi.
+      by eapply (forced_key_unique true IMAGES_DIR m (st_root (fa_images f)) _ k (Loaded c') (Loaded c)) in Hin' as [= ->].
+    + apply elem_of_list_further.
+      eapply (elem_of_concat_map _ _ _ (k, Loaded c)); [exact Hi|].
+      unfold image_cell_prog. cbn [fst snd]. apply elem_of_list_here.
+  - (* a data file *)
+    pose proof (Hforced false DATA_DIR (fa_data f) Hroot Hin Hokd Hm) as Hd.
+    fold d in Hd.
+    assert (Hcompat_d : Forall (λ ea, compat (t ++ DATA_DIR :: k) c ea.2)
+                               (concat (map (data_cell_prog t) (st_cells d)))).
+    { apply data_prog_compat; [exact m|]. intros k' c' Hin' Heq.
+      apply app_inv_head in Heq. injection Heq as ->.
+      unfold d, force_store in Hin', Hd. cbn [st_cells] in Hin', Hd.
+      by eapply (forced_key_unique false DATA_DIR m (st_root (fa_data f)) _ k (Loaded c') (Loaded c)) in Hin' as [= ->]. }
+    assert (holds (t ++ DATA_DIR :: k) c m2) as H2.
+    { eapply run_prog_written; [exact Hcompat_d| |exact Hdat].
+      eapply (elem_of_concat_map _ _ _ (k, Loaded c)); [exact Hd|].
+      unfold data_cell_prog. cbn [fst snd]. apply elem_of_list_further, elem_of_list_here. }
+    destruct (st_cells i) as [|kc cells] eqn:Ei.
+    + injection Himg as <-. exact H2.
+    + eapply run_prog_holds; [|exact Himg|exact H2].
+      constructor; [apply compat_create_dir|].
+      apply image_prog_compat. intros k' c' _ Heq. apply app_inv_head in Heq. discriminate.
+Qed.
